@@ -190,6 +190,9 @@ def analyze_accumulator_from_sample(
     # predict values for all inputs to quantized layers
 
     values = eval_outputs.predict(x_sample)
+    if not isinstance(values, list):
+      # a model with a single quantized layer returns one array, not a list
+      values = [values]
 
     acc_sizes = {}
 
@@ -218,6 +221,8 @@ def analyze_accumulator_from_sample(
   # predict values for all inputs to quantized layers
 
   values = eval_inputs.predict(x_sample)
+  if not isinstance(values, list):
+    values = [values]
 
   x_dict = {}
 
